@@ -152,6 +152,57 @@ fn main() {
             }
             println!("OK run-state");
         }
+        "cross" => {
+            // two cells updated from each other in both directions at once: no deadlock, contents stay unions of the start bits
+            let f = function("(a: mut int, b: mut int) -> int { a |= *b; a |= *b; return *a }");
+            let mk = |v: i64| Arc::new(Mut { var_type: Type::Int, variable: RwLock::new(Variable::Int(v)) });
+            let (x, y) = (mk(1), mk(2));
+            let hs: Vec<_> = [(x.clone(), y.clone()), (y.clone(), x.clone())]
+                .into_iter()
+                .map(|(a, b)| {
+                    let f = f.clone();
+                    std::thread::spawn(move || f.create_call(vec![Variable::Mut(a), Variable::Mut(b)]).expect("call").exec().expect("runs"))
+                })
+                .collect();
+            for h in hs {
+                h.join().expect("thread");
+            }
+            let (vx, vy) = (int(&x.variable.read().expect("lock")), int(&y.variable.read().expect("lock")));
+            assert!(vx & 1 == 1 && vy & 2 == 2 && vx | vy == 3, "cells ended as {vx}, {vy}");
+            println!("OK cross {vx} {vy}");
+        }
+        "mixed" => {
+            // a plain store racing compound assignments: the storing thread finds its value (plus increments) when it reads back
+            let cell = Arc::new(Mut { var_type: Type::Int, variable: RwLock::new(Variable::Int(0)) });
+            let storer = function("(c: mut int) -> int { c = 1000; r := *c; return r }");
+            let bumper = function("(c: mut int) -> int { c += 1; c |= 0; return *c }");
+            let (c1, c2) = (cell.clone(), cell.clone());
+            let a = std::thread::spawn(move || int(&storer.create_call(vec![Variable::Mut(c1)]).expect("call").exec().expect("runs")));
+            let b = std::thread::spawn(move || int(&bumper.create_call(vec![Variable::Mut(c2)]).expect("call").exec().expect("runs")));
+            let seen = a.join().expect("thread");
+            b.join().expect("thread");
+            assert!((1000..=1001).contains(&seen), "the storing thread read {seen} back after storing 1000");
+            let fin = int(&cell.variable.read().expect("lock"));
+            assert!((1000..=1001).contains(&fin), "the cell ended as {fin}");
+            println!("OK mixed {seen} {fin}");
+        }
+        "sites" => {
+            // one function value whose type-test sites see a different kind of argument from each thread
+            let f = function("(v: int|string|[int]) -> int { a := mut 0; if x: int = v { a += 1; } m := match v { p: int => 10, q: string => 20, r: [int] => 30, }; a += m; if s: string|[int] = v { a += 100; } return *a }");
+            let args = [Variable::Int(1), Variable::String(Arc::from("s")), Variable::from(vec![Variable::Int(1)])];
+            let want = [11, 120, 130];
+            let hs: Vec<_> = args
+                .into_iter()
+                .map(|v| {
+                    let f = f.clone();
+                    std::thread::spawn(move || (int(&f.clone().create_call(vec![v.clone()]).expect("call").exec().expect("runs")), int(&f.create_call(vec![v]).expect("call").exec().expect("runs"))))
+                })
+                .collect();
+            for (h, w) in hs.into_iter().zip(want) {
+                assert_eq!(h.join().expect("thread"), (w, w));
+            }
+            println!("OK sites");
+        }
         other => panic!("unknown workload {other}"),
     }
 }
